@@ -196,7 +196,8 @@ def run(ctx):
         fn = os.path.join(workdir, "out%d" % i)
         fp, fm = o.get_fraction_positive(), o.get_fraction_negative()
         uh, mnc = o.get_uversky_hydropathy(), o.get_mean_net_charge()
-        for getfig in (True, False):
+        import numpy as np
+        for getfig in (rng.choice([True, 1, np.bool_(True), np.int64(1)]), False):
             ev.append(figure_event(ctx, plt, workdir, "SP.show_phaseDiagramPlot", lambda: o.show_phaseDiagramPlot(label, title, leg, xl, yl, fs, getfig),
                                    "phase", seqs=[s], getfig=getfig, title=title, labels=lab1, xlim=xl, ylim=yl))
             ev.append(figure_event(ctx, plt, workdir, "SP.show_uverskyPlot", lambda: o.show_uverskyPlot(label, title, leg, xl, yl, fs, getfig),
@@ -208,7 +209,7 @@ def run(ctx):
                                "phase", seqs=[s], save=True, title=title, labels=lab1, xlim=xl, ylim=yl))
         ev.append(figure_event(ctx, plt, workdir, "SP.save_uverskyPlot", lambda: o.save_uverskyPlot(fn, label, title, leg, xl, yl, fs, fmt),
                                "uversky", seqs=[s], save=True, title=title, labels=lab1, xlim=xl, ylim=yl))
-        ev.append(figure_event(ctx, plt, workdir, "plots.show_single_phasePlot", lambda: P.show_single_phasePlot(fp, fm, label, title, leg, xl, yl, fs, True),
+        ev.append(figure_event(ctx, plt, workdir, "plots.show_single_phasePlot", lambda: P.show_single_phasePlot(fp, fm, label, title, leg, xl, yl, fs, rng.choice([True, 1, np.bool_(True)])),
                                "phase", coords=[(fp, fm)], getfig=True, title=title, labels=lab1, xlim=xl, ylim=yl))
         ev.append(figure_event(ctx, plt, workdir, "plots.save_single_phasePlot", lambda: P.save_single_phasePlot(fp, fm, fn, label, title, leg, xl, yl, fs, fmt),
                                "phase", coords=[(fp, fm)], save=True, title=title, labels=lab1, xlim=xl, ylim=yl))
@@ -228,7 +229,7 @@ def run(ctx):
         labs = ["L%d" % j for j in range(k)] if withlab else []
         want = labs if withlab else [""] * k
         la = (labs,) if withlab else ()
-        gf = rng.random() < 0.6
+        gf = rng.choice([True, 1, np.bool_(True), False, False])
         ev.append(figure_event(ctx, plt, workdir, "plots.show_multiple_phasePlot", lambda: P.show_multiple_phasePlot(fps, fms, *la, getFig=gf) if not withlab else P.show_multiple_phasePlot(fps, fms, labs, title, leg, xl, yl, fs, gf),
                                "phase", coords=list(zip(fps, fms)), getfig=gf, title=title if withlab else "Diagram of states", labels=want, xlim=xl if withlab else 1, ylim=yl if withlab else 1))
         ev.append(figure_event(ctx, plt, workdir, "plots.show_multiple_phasePlot2", lambda: P.show_multiple_phasePlot2(objs, labs, title, leg, xl, yl, fs, gf) if withlab else P.show_multiple_phasePlot2(objs, title=title, xLim=xl, yLim=yl, getFig=gf),
